@@ -5,12 +5,15 @@ import (
 	"math/rand"
 	"os"
 	"path/filepath"
+	"runtime/debug"
 	"sort"
+	"strings"
 	"sync/atomic"
 	"time"
 
 	"github.com/lindb/common/pkg/ltoml"
 	"github.com/lindb/lindb/kv"
+	"github.com/lindb/lindb/kv/table"
 	"github.com/lindb/lindb/kv/version"
 	"github.com/lindb/lindb/pkg/timeutil"
 
@@ -31,6 +34,10 @@ const directedBase = 100000
 func runDirected(k int, dir string, seed int64) {
 	if k%3 == 2 {
 		runDirectedLateRetain(k, dir, seed)
+		return
+	}
+	if k%3 == 1 {
+		runDirectedReaderAccounting(k, dir, seed)
 		return
 	}
 	rnd := rand.New(rand.NewSource(seed*92821 + int64(k)*577 + 11))
@@ -391,6 +398,140 @@ func runDirectedLateRetain(k int, dir string, seed int64) {
 	res.Violations = mon.violations
 	res.Porcupine = "n/a"
 	res.Nontrivial = mon.counters["directed.reader_parked_inside_get_snapshot"] > 0 && mon.counters["table_deletes_attempted"] > 0
+	res.Sample = map[string]interface{}{"run": res.Run, "config": res.Config, "counters": mon.counters}
+	writeResult(dir, res)
+}
+
+// runDirectedReaderAccounting: the reader cache counts references per table; earlier snapshots that found readers and
+// closed must leave the count where it was, so that a later snapshot that holds a reader keeps the table mapped
+// through any number of cache cleanup rounds after the cache TTL expired.
+func runDirectedReaderAccounting(k int, dir string, seed int64) {
+	rnd := rand.New(rand.NewSource(seed*5741 + int64(k)*97 + 3))
+	// one earlier snapshot is the sharpest case: a count that goes down twice per close is back at zero exactly
+	// when the next snapshot holds its reader (with more earlier snapshots it goes negative and nothing is evicted)
+	earlier := 1
+	if rnd.Intn(4) == 0 {
+		earlier = 2 + rnd.Intn(2)
+	}
+	overlapping := rnd.Intn(2) == 0
+	res := &runResult{Run: directedBase + k, Config: fmt.Sprintf("directed-reader-accounting{earlier:%d overlapping:%v}", earlier, overlapping), Counters: map[string]int{}}
+	mon := &monitor{snapFiles: map[int]map[string]bool{}, readerHeld: map[string]int{}, counters: map[string]int{}}
+	storeDir := filepath.Join(dir, "store")
+	mon.famDir = filepath.Join(storeDir, "f")
+	seam.NoFsync = true
+	seam.InstallKV(seam.Direct{}, &seam.Observer{
+		BeforeRemoveDir: func(p string) { mon.beforeRemoveDir(p) },
+		BeforeUnmap:     func(p string) { mon.beforeUnmap(p) },
+	})
+	opt := kv.DefaultStoreOption()
+	opt.Levels = 2
+	opt.TTL = ltoml.Duration(time.Millisecond)
+	opt.Source = timeutil.Interval(10_000)
+	store, err := kv.GetStoreManager().CreateStore(storeDir, opt)
+	if err != nil {
+		fatal(dir, res, "create store: %v", err)
+	}
+	fam, err := store.CreateFamily("f", kv.FamilyOption{Merger: kvtok.MergerName, CompactThreshold: 1 << 30})
+	if err != nil {
+		fatal(dir, res, "create family: %v", err)
+	}
+	mon.family = fam
+	keys := []uint32{3, 65536}
+	for i, key := range keys {
+		fl := fam.NewFlusher()
+		err := fl.Add(key, kvtok.Encode([]uint32{uint32(i + 1)}, 8))
+		if err == nil {
+			err = fl.Commit()
+		}
+		fl.Release()
+		if err != nil {
+			fatal(dir, res, "flush: %v", err)
+		}
+	}
+	find := func(snap version.Snapshot) {
+		for _, key := range keys {
+			if _, err := snap.FindReaders(key); err != nil {
+				mon.violate("C02/snapshot-read-error", "directed reader accounting: FindReaders(%d): %v", key, err)
+			}
+		}
+	}
+	// the snapshot that is going to hold its readers
+	var held version.Snapshot
+	if overlapping {
+		held = fam.GetSnapshot()
+	}
+	for i := 0; i < earlier; i++ {
+		s := fam.GetSnapshot()
+		find(s)
+		s.Close()
+	}
+	if !overlapping {
+		held = fam.GetSnapshot()
+	}
+	type heldReader struct {
+		key uint32
+		rd  table.Reader
+	}
+	var hs []heldReader
+	for _, key := range keys {
+		readers, err := held.FindReaders(key)
+		if err != nil {
+			mon.violate("C02/snapshot-read-error", "directed reader accounting: FindReaders(%d) of the held snapshot: %v", key, err)
+			continue
+		}
+		for _, rd := range readers {
+			mon.mu.Lock()
+			mon.readerHeld[rd.FileName()]++
+			mon.mu.Unlock()
+			hs = append(hs, heldReader{key, rd})
+		}
+	}
+	mon.mu.Lock()
+	mon.snapFiles[1] = map[string]bool{}
+	mon.mu.Unlock()
+	read := func() string {
+		var out []string
+		for _, h := range hs {
+			v, err := h.rd.Get(h.key)
+			if err != nil {
+				out = append(out, fmt.Sprintf("%d:err(%v)", h.key, err))
+				continue
+			}
+			ts, err := kvtok.Decode(v)
+			out = append(out, fmt.Sprintf("%d:%v/%v", h.key, ts, err))
+		}
+		return strings.Join(out, " ")
+	}
+	first := read()
+	for round := 0; round < 4; round++ {
+		time.Sleep(5 * time.Millisecond) // longer than the cache TTL (1ms): only decides whether cleanup may evict
+		kv.VerifStoreCompact(store)      // runs the reader cache cleanup
+		mon.count("directed.cleanup_rounds_with_a_reader_held", 1)
+	}
+	func() {
+		defer func() {
+			if p := recover(); p != nil {
+				mon.violate("C02/reader-faults", "directed reader accounting: reading through a held reader after cache cleanup: %v", p)
+			}
+		}()
+		debug.SetPanicOnFault(true)
+		if second := read(); second != first {
+			mon.violate("C02/held-reader-content-changed", "directed reader accounting: %s then %s", first, second)
+		}
+	}()
+	mon.mu.Lock()
+	for _, h := range hs {
+		mon.readerHeld[h.rd.FileName()]--
+	}
+	delete(mon.snapFiles, 1)
+	mon.mu.Unlock()
+	held.Close()
+	_ = kv.GetStoreManager().CloseStore(storeDir)
+	seam.Restore()
+	res.Counters = mon.counters
+	res.Violations = mon.violations
+	res.Porcupine = "n/a"
+	res.Nontrivial = len(hs) > 0 && mon.counters["directed.cleanup_rounds_with_a_reader_held"] > 0
 	res.Sample = map[string]interface{}{"run": res.Run, "config": res.Config, "counters": mon.counters}
 	writeResult(dir, res)
 }
